@@ -15,7 +15,12 @@ pub(super) fn insert_reserved_times_as_breaks(
         .tour
         .start()
         .zip(route.tour.end())
-        .map(|(start, end)| TimeWindow::new(start.schedule.departure, end.schedule.arrival))
+        // NOTE the last activity of an open tour is a job: the tour lasts until the job is done
+        .map(|(start, end)| {
+            let is_open_end = route.actor.detail.end.is_none();
+            let tour_end = if is_open_end { end.schedule.departure } else { end.schedule.arrival };
+            TimeWindow::new(start.schedule.departure, tour_end)
+        })
         .expect("empty tour");
 
     reserved_times_index
